@@ -1061,6 +1061,25 @@ def c07_sweep(res):
         t.line(0, "NAMES #c")
         t.meta = {"cell": ["lists", which]}
         traces.append(t)
+    # the masks judge the joiner's CURRENT nick!user@host: renamed into / out of a ban mask, an exception mask, an invite-exception mask
+    for k2, (old_n, new_n) in enumerate([("good1", "evil1"), ("evil2", "nice2"), ("stranger3", "friend3"), ("friend4", "other4")]):
+        cfg = Config(channels=[dict(name="#ban", flags="", ban=["evil*!*@*"], exception=["evil9*!*@*"]),
+                               dict(name="#inv", flags="i", invex=["friend*!*@*"])])
+        t = Trace("c07-renamed-%d" % k2, cfg)
+        t.register(0, "alice")
+        t.register(1, old_n)
+        t.line(0, "JOIN #ban,#inv")
+        t.line(1, "NICK " + new_n)
+        t.line(1, "JOIN #ban")
+        t.line(1, "JOIN #inv")
+        t.line(1, "PART #ban,#inv")
+        t.line(1, "NICK evil95")
+        t.line(1, "JOIN #ban")
+        t.line(1, "NICK " + old_n)
+        t.line(1, "JOIN #ban,#inv")
+        t.line(0, "NAMES")
+        t.meta = {"cell": ["renamed", k2]}
+        traces.append(t)
     return traces
 
 
@@ -1073,7 +1092,7 @@ def join_profile():
 def check_C07(res):
     sweep = c07_sweep(res)
     n = 100 if res.tier == "quick" else 2000
-    r = l2_campaign(res, "C07", n, 45, join_profile(), traces=sweep, oracle=join_oracle)
+    r = l2_campaign(res, "C07", n, 45, join_profile(), traces=sweep, oracle=lambda t, st: join_oracle(t, st) + inv_oracle(t, st))
     res.coverage.update({
         "evaluations": r["steps"], "distinct_nontrivial": len(set(tuple(t.meta["cell"]) for t in sweep)),
         "rule": "sweep over the admission table: key {unset, right, wrong, missing} x banned x excepted x +i x invited x invite-exception x full x quota reached = 512 cells, each set up "
@@ -1381,6 +1400,9 @@ def c09_sweep(res):
             t.line(1, "JOIN #club")
             t.line(1, "PART #club :once")
         t.line(0, "JOIN #club")
+        for tp in (":)", ":", "a:b", "", "two words", ":-D x", "plain"):
+            t.line(0, "TOPIC #club :" + tp)    # what is relayed to the members re-parses to what was sent and is what TOPIC shows later
+            t.line(0, "TOPIC #club")
         t.line(0, "MODE #club +i")
         t.line(1, "JOIN #club")                # no new invitation: must be refused with 473
         t.line(0, "NAMES #club")
@@ -1397,7 +1419,7 @@ def check_C09(res):
     n = 100 if res.tier == "quick" else 2000
     prof = {"weights": dict(KICK=18, TOPIC=10, INVITE=10, JOIN=12, MODE=14, PART=3, NICK=2, PRIVMSG=1, MISC=0.2, BAD=1),
             "max_conns": 6, "initial_conns": 4}
-    r = l2_campaign(res, "C09", n, 45, prof, traces=sweep, oracle=lambda t, st: rank_oracle(t, st) + join_oracle(t, st))
+    r = l2_campaign(res, "C09", n, 45, prof, traces=sweep, oracle=lambda t, st: rank_oracle(t, st) + join_oracle(t, st) + relay_oracle(t, st))
     res.coverage.update({
         "evaluations": r["steps"], "distinct_nontrivial": len(set((t.meta["actor"], t.meta["victim"], t.meta["flags"]) for t in sweep)),
         "rule": "sweep: 32 actor rank subsets x 32 victim rank subsets (set through the configured rank lists of a preconfigured channel) with +t/+i varied, each running TOPIC, INVITE (to an "
@@ -1657,6 +1679,38 @@ def check_C08(res):
             t.line(0, "NAMES #m")
         sweep.append(t)
 
+    # accepted ban / exception / invite-exception edits are enforced from then on: lists with several masks, lists emptied again
+    for k2 in range(3):
+        t = Trace("c08-lists-enforced-%d" % k2, Config())
+        for c, n2 in enumerate(["alice", "bob", "frank", "zed"]):
+            t.register(c, n2)
+        t.line(0, "JOIN #m")
+        t.line(1, "JOIN #m")
+        t.line(2, "JOIN #m")
+        t.line(0, "MODE #m +b frank!*@*")
+        t.line(0, "MODE #m +b z*!*@*")
+        t.line(2, "PRIVMSG #m :banned member speaks")
+        t.line(3, "JOIN #m")
+        excs = [["f*!*@*", "nobody!*@*"], ["nobody!*@*", "frank!*@127.*", "zed!*@*"], ["*!*@10.*", "q!*@*"]][k2]
+        for e in excs:
+            t.line(0, "MODE #m +e " + e)
+        t.line(2, "PRIVMSG #m :excepted by one of several masks?")
+        t.line(3, "JOIN #m")
+        t.line(3, "PART #m")
+        for e in excs:
+            t.line(0, "MODE #m -e " + e)
+        t.line(0, "MODE #m e")
+        t.line(2, "PRIVMSG #m :exception list emptied, the bans decide")
+        t.line(3, "JOIN #m")
+        t.line(0, "MODE #m -b frank!*@*")
+        t.line(2, "NOTICE #m :ban removed")
+        t.line(0, "MODE #m +i")
+        t.line(0, "MODE #m +I z?d!*@*")
+        t.line(0, "MODE #m +I other!*@*")
+        t.line(0, "MODE #m -b z*!*@*")
+        t.line(3, "JOIN #m")
+        sweep.append(t)
+
     def orc(t, steps):
         return mode_oracle(t, steps) + rank_oracle(t, steps) + join_oracle(t, steps) + msg_oracle(t, steps)
     r = l2_campaign(res, "C08", n, 50, prof, traces=sweep, oracle=orc)
@@ -1683,6 +1737,9 @@ def state_inv_fails(d, step_k):
                 f.append("user %s lists channel %s which does not list the user" % (n, c))
         if u.get("sender_closed"):
             f.append("user %s is registered but its connection task is gone (ghost)" % n)
+        # the source every relayed line is prefixed with, and every mask is matched against, is the CURRENT nick!~user@host
+        if "source" in u and "name" in u and "host" in u and u["source"] != "%s!~%s@%s" % (n, u["name"], u["host"]):
+            f.append("user %s has source %r, its nick, user name and host give %r" % (n, u["source"], "%s!~%s@%s" % (n, u["name"], u["host"])))
     for c, ch in chans.items():
         for n in ch["users"]:
             if n not in users or c not in users[n]["channels"]:
@@ -1859,6 +1916,36 @@ def c02_sweep(res):
             t.line(2, "WHOIS zed")
             t.meta = {"order": [list(x) for x in perm], "cfg": cfgname}
             traces.append(t)
+    # nicks that differ only in letter case, by one trailing character or by a prefix are different users: a rename onto the
+    # other's exact nick is refused, each keeps acting as itself, and the end of one leaves the other alone (seeded C02-b, C11-c)
+    for k2, (a, b) in enumerate([("alice", "Alice"), ("Alice", "alice"), ("bob", "BOB"), ("carol", "carol_"), ("dave", "dav"),
+                                 ("v" * 200, "w" * 199), ("n" * 64, "n" * 63)]):
+        t = Trace("c02-near-%d" % k2, Config())
+        t.register(0, a)
+        t.register(1, b)
+        t.register(2, "watcher")
+        for c in (0, 1, 2):
+            t.line(c, "JOIN #n")
+        t.line(1, "NICK " + a)               # taken: 433
+        t.line(0, "NICK " + b)               # taken: 433
+        t.line(1, "AWAY :I am " + b)
+        t.line(0, "PRIVMSG #n :I am " + a)
+        t.line(1, "PRIVMSG %s :to the other one" % a)
+        t.line(2, "WHOIS %s,%s" % (a, b))
+        t.line(1, "NICK " + a.upper() + "x")  # free: accepted
+        t.line(1, "NICK " + a)               # still taken
+        t.line(1, "NICK " + a + "xy")         # free (the other's nick is a proper prefix of it): accepted, and it is its own nick
+        t.line(1, "AWAY :as myself")
+        t.line(1, "PRIVMSG #n :who am I")
+        t.line(2, "WHOIS %s,%sxy" % (a, a))
+        t.line(2, "ISON %s %s %sx" % (a, b, a.upper()))
+        t.line(1, "QUIT")
+        t.line(2, "ISON %s %s" % (a, b))
+        t.line(0, "PRIVMSG #n :still here")
+        t.close(0)
+        t.line(2, "NAMES #n")
+        t.meta = {"order": ["near", a, b], "cfg": "plain"}
+        traces.append(t)
     return traces
 
 
@@ -2391,6 +2478,27 @@ def check_C05(res):
             t.line(c2, "PRIVMSG #a :still here")
         traces.append(t)
     traces += retry_after_refusal_traces(res)
+    # numeric extremes against real history: WHOWAS counts below, at and above the number of stored entries (after peers
+    # left or renamed), limits at the edges of the integer range
+    tn = Trace("C05-numeric", Config())
+    tn.register(0, "alice")
+    tn.register(1, "bob")
+    tn.line(1, "NICK bobby")
+    tn.line(1, "QUIT :gone")
+    tn.register(2, "bob")
+    tn.close(2)
+    tn.register(3, "bob")
+    tn.line(3, "NICK robert")
+    tn.line(0, "JOIN #a")
+    for nk in ("bob", "bobby", "robert", "nobody", "alice"):
+        for cnt in ("", " 0", " 1", " 2", " 3", " 4", " 99", " -1", " x", " 18446744073709551615", " 18446744073709551616", " 1 irc.irc"):
+            tn.line(0, "WHOWAS %s%s" % (nk, cnt))
+    for lim in ("0", "1", "4294967295", "4294967296", "18446744073709551615", "18446744073709551616", "-1", "+3", "07"):
+        tn.line(0, "MODE #a +l " + lim)
+        tn.line(0, "MODE #a")
+        tn.line(3, "JOIN #a")
+        tn.line(3, "PART #a")
+    traces.append(tn)
     def orc(t, steps):
         return eof_oracle(t, steps) + inv_oracle(t, steps)
     r = l2_campaign(res, "C05", 0, 0, prof, traces=traces, oracle=orc)
@@ -2856,6 +2964,28 @@ def c15_sweep(res):
         t.line(0, "JOIN #v")
         t.line(1, "NAMES #shared")
         t.meta = {"variant": variant}
+        traces.append(t)
+    # a nick held by another user is refused also when it differs from the own nick only in letter case or by one character
+    for k2, (a, b) in enumerate([("mover", "Mover"), ("Mover", "mover"), ("mover", "MOVER"), ("mover", "mover_")]):
+        t = Trace("c15-near-%d" % k2, Config(operators=[dict(name="admin", password="operpass")]))
+        t.register(0, a)
+        t.register(1, b)
+        t.register(2, "peer")
+        for c in (0, 1, 2):
+            t.line(c, "JOIN #n")
+        t.line(0, "OPER admin operpass")
+        t.line(0, "MODE %s +wi" % a)
+        t.line(0, "AWAY :gone")
+        t.line(0, "NICK " + b)               # held by the other user: 433, nothing changes
+        t.line(1, "NICK " + a)               # likewise
+        t.line(2, "WHOIS %s,%s" % (a, b))
+        t.line(2, "NAMES #n")
+        t.line(0, "NICK " + a + "2")          # free: the whole identity moves
+        t.line(1, "NICK " + a)               # now free
+        t.line(2, "WHOIS %s,%s,%s2" % (a, b, a))
+        t.line(0, "WALLOPS :after the renames")
+        t.line(2, "NAMES #n")
+        t.meta = {"variant": "near-%d" % k2}
         traces.append(t)
     return traces
 
